@@ -86,8 +86,9 @@ RULE = ("PROOF PART: cases = corpus + every string of length <= 3 over {e-acute,
         "numeric/non-numeric strings, integer/float/string/boolean facts) x {+ - * / %} on evaluate_expression + every string of "
         "length <= 4 over {U+0001, U+0002, 0, \", a, newline} and over {/, *, \", newline, a, '} through the text layer "
         "(strip_comments -> mask_string_literals -> clean_text -> unmask, observed in parse_rule's error message) + STRUCTURED MUTATIONS "
-        "of every valid input of every entry (30 entries incl. the whole-rule entries parse_rules / parse_with_modules / parse_rule / a when "
-        "clause, which have no prediction: oracle only): (i) every ASCII blank replaced by a multi-byte white space character (NBSP, NEL, "
+        "of every valid input of every entry (31 entries incl. the whole-rule entries parse_rules / parse_with_modules / parse_rule / a when "
+        "clause / one then-part statement (FN: parse_action_statement, whose function name is matched after to_lowercase()), which have no "
+        "prediction: oracle only): (i) every ASCII blank replaced by a multi-byte white space character (NBSP, NEL, "
         "EM SPACE, IDEOGRAPHIC SPACE each; LINE/PARAGRAPH SEPARATOR, OGHAM, THIN, NARROW NBSP, MEDIUM MATHEMATICAL SPACE, VT, FF rotating) "
         "and by a look-alike that is NOT white space (ZERO WIDTH SPACE, BOM, WORD JOINER, fullwidth parentheses/quotes/operators), every "
         "blank at once, and the character in front of / behind the input; (ii) every digit run (max-depth, max-solutions, salience, window "
@@ -97,9 +98,24 @@ RULE = ("PROOF PART: cases = corpus + every string of length <= 3 over {e-acute,
         "forms (MASK_START <index> MASK_END with indices inside / at / beyond the table, beyond usize, signed, zero-padded, empty, "
         "unterminated, nested) INSIDE every string literal of every statement form (conditions, assignments, Log, function and method "
         "arguments, SetWorkflowData / set_workflow_data key=value literals incl. right after the `=`, rule names, attribute strings, "
-        "query goals, stream names) + N generated "
-        "strings, each for one of 27 modelled entries or 3 whole-rule entries (one in five: a valid input with random (i)/(ii)/(iii) "
-        "mutations, sometimes spliced; every token alphabet yields a Unicode white space / look-alike one time in ten) (ExpressionParser::parse, "
+        "query goals, stream names); (iv) the CLASS of characters whose case mapping changes the UTF-8 length or the number of chars "
+        "(str::to_lowercase: KELVIN SIGN, OHM SIGN, ANGSTROM SIGN, CAPITAL SHARP S, A / T WITH STROKE, I WITH DOT ABOVE; str::to_uppercase: "
+        "sharp s, n-apostrophe, j-caron, iota-dialytika-tonos, fi / ffi / st ligatures, dotless i, long s, small a / t with stroke, h-line-below, "
+        "alpha-psili-ypogegrammeni, ech-yiwn, the title-case digraph; context dependent: final sigma, doubled I-dot, KELVIN + A-stroke) in front "
+        "of / behind / at rotating interior positions of every valid input AND in front of, inside and behind EVERY identifier, keyword, "
+        "function name and variable name of every valid input, plus the name with a letter replaced by the character that case-maps to it "
+        "(SetWor<KELVIN>flowData, m<I-dot>n, <long s>liding), plus SANDWICHES: the character (byte shift -2 / -1 / +1 / +2 under to_lowercase, "
+        "+1 / -1 / +4 under to_uppercase) in front of a name and a 3-byte character directly in front of and behind the delimiter that "
+        "follows it, or around the NEXT name + delimiter (K.. <CJK>goal:<CJK>), so that an offset shifted either way lands inside a character - a parser that searches a case-folded copy and slices the original is "
+        "caught at the first delimiter behind such a character; aggregate queries `f(?v) WHERE p(..) [AND ..]` x 8 function names x 27 "
+        "characters / sequences x 12 structural positions (single, doubled, two positions) and every call part of length <= 4 over "
+        "{KELVIN, I-dot, A-stroke, sharp s, (, ), ?, x, blank}; then-part statements (12 forms) with the characters around / inside the "
+        "function name; every string of length <= 4 over {1 e E + - . x blank ( ) *} and of length 5 over {1 e + - x} on "
+        "evaluate_expression (every look-behind / look-ahead around a sign, dot, exponent letter or parenthesis at the very start / end) "
+        "+ N generated "
+        "strings, each for one of 27 modelled entries or 4 oracle-only entries R / M / W / FN (one in five: a valid input with random (i)/(ii)/(iii) "
+        "/(iv) mutations, sometimes spliced; every token alphabet yields a Unicode white space / look-alike one time in ten and a "
+        "length-changing case-mapping character one time in fourteen; one multi-byte insertion in three is such a character) (ExpressionParser::parse, "
         "QueryParser::parse and its twin QueryParser::validate, the SetWorkflowData / set_workflow_data branch through a rule (WF/WG: key "
         "and value after the double unmask), GRLQueryParser::parse now with max_depth and max_solutions in the observation, evaluate_expression with fixed facts, DisjunctionParser::parse/contains_or, GRLQueryParser::parse/parse_queries, "
         "parse_aggregate_query, NestedQueryParser::has_nested/parse, parse_value through a condition value and through an "
@@ -114,7 +130,7 @@ RULE = ("PROOF PART: cases = corpus + every string of length <= 3 over {e-acute,
         "= distinct case text. SEARCH PART (fuzzing-like, labelled `search_*` in coverage; supports, never replaces, the "
         "theorems): ROBUST_N strings (raw bytes->lossy UTF-8, GRL/expression token soups, valid rules/queries mutated by "
         "splice/truncate/duplicate/multi-byte insertion, one in five a valid rule/query/goal/stream pattern with the structured mutations "
-        "(i)-(iii) above, prefix chains !!!.. ((((.. ----.. up to 4 KiB, balanced nesting "
+        "(i)-(iv) above, one raw string in five with 1..3 case-mapping characters inserted, prefix chains !!!.. ((((.. ----.. up to 4 KiB, balanced nesting "
         "<= 32) are each run on ALL SEVEN entry points in a child process with the default 8 MiB main-thread stack and a "
         "per-input watchdog (quick 30 s, thorough 120 s); panic payloads, death by signal and hangs are reported.")
 TRUSTED = [
@@ -192,7 +208,7 @@ def classify(case, impl, model, oracle, kind):
             s = _unhex(t[1]) if len(t) > 1 else ""
             if e == "W":
                 s = "when " + s
-            if e in ("R", "M", "W", "PU", "AT", "PN", "AC", "MC", "RV", "RA", "WF", "WG") and _long_when_leaf(s):
+            if e in ("R", "M", "W", "PU", "AT", "PN", "AC", "MC", "RV", "RA", "WF", "WG", "FN") and _long_when_leaf(s):
                 return KNOWN_HANG_SIG
         return "oracle:%s:%s" % (e, oracle.replace("fail ", ""))
     return "diff:%s" % e
